@@ -84,6 +84,19 @@ def build_files(case) -> dict[str, str]:
     raise H.HarnessError(layout)
 
 
+# pre-existing next_ids.json contents: the next suffix of every date used sits
+# right before a carry (z -> next digit, zz -> 000) or a skip over excluded
+# look-alike characters (H->J, h->k, o->r, P->R, R->T, x->z)
+_PRE_POINTS = ["0z", "0h", "0o", "Hz", "zz", "0H", "0P", "0R", "0x", "9z", "Zz", "00h", "0zz"]
+
+
+def _preids(today_short: str, k) -> dict:
+    k = int(k)
+    pts = _PRE_POINTS
+    return {today_short: pts[k % len(pts)], "240203": pts[(k + 3) % len(pts)],
+            "240204": pts[(k + 5) % len(pts)], "240205": pts[(k + 7) % len(pts)]}
+
+
 def _judge_state(zdir, day, original: dict, prev: dict | None, step_no: int):
     """The four invariants in one state. Returns (problem kind, detail) or None."""
     H.freeze(day)
@@ -163,7 +176,7 @@ def _run_case(ctx, case) -> F.Outcome:
         if preids:
             (zd / ".zorg").mkdir()
             d = "%02d%02d%02d" % (day0.year % 100, day0.month, day0.day)
-            (zd / ".zorg" / "next_ids.json").write_text(json.dumps({d: "0z", "240203": "Hz", "240204": "zz"}))
+            (zd / ".zorg" / "next_ids.json").write_text(json.dumps(_preids(d, preids)))
         day = day0
         prev = None
         for k, ev in enumerate(hist):
@@ -213,23 +226,23 @@ def _cases(ctx):
     nv = len(variant_items())
     for v in range(nv):
         if ctx.quick:
-            cases.append([["variant", v], "cr", False, v % 2 == 1])
-            cases.append([["variant", v], "cc" if v % 2 else "cr", True, v % 2 == 0])
+            cases.append([["variant", v], "cr", False, (v + 1) if v % 2 == 1 else 0])
+            cases.append([["variant", v], "cc" if v % 2 else "cr", True, (v + 1) if v % 2 == 0 else 0])
         else:
             for h in hists:
-                cases.append([["variant", v], h, False, v % 2 == 1])
-            cases.append([["variant", v], "cr", True, v % 2 == 0])
+                cases.append([["variant", v], h, False, (v + 1) if v % 2 == 1 else 0])
+            cases.append([["variant", v], "cr", True, (v + 1) if v % 2 == 0 else 0])
     for i, j in it.product(range(len(REDUCED)), repeat=2):
         if ctx.quick:
             # quick: every ordered pair once, layout and history rotating with the pair
             layout = LAYOUTS[(i + j + ctx.seed) % len(LAYOUTS)]
             h = hists[(i + 2 * j) % len(hists)]
-            cases.append([["pair", layout, i, j], h, (i + 2 * j) % 3 == 0, (i + j) % 4 == 0])
+            cases.append([["pair", layout, i, j], h, (i + 2 * j) % 3 == 0, (i * 12 + j + 1) if (i + j) % 2 == 0 else 0])
         else:
             for layout in LAYOUTS:
                 for h in ("cr", "ccr"):
                     for adv in (False, True):
-                        cases.append([["pair", layout, i, j], h, adv, (i + j) % 2 == 0])
+                        cases.append([["pair", layout, i, j], h, adv, (i * 12 + j + 1) if (i + j) % 2 == 0 else 0])
     return cases
 
 
@@ -249,8 +262,8 @@ def run(ctx: F.Ctx):
             "bullets incl. a bullet property}) between two notes that already have ZIDs; (b) every "
             "ordered pair of a 12-item alphabet (ZID-less, dated, multi-line, with ZID, stamped, "
             "irregular spacing) in 5 layouts (same block, two blocks, under a dated H2, page in a "
-            "sub-directory, two pages); with and without a pre-existing next_ids.json sitting at "
-            "carry points. Histories over {create, reindex} (quick: c, cc, cr; thorough adds crr, "
+            "sub-directory, two pages); with and without a pre-existing next_ids.json whose next "
+            "suffixes sit right before every carry and every skip over excluded characters. Histories over {create, reindex} (quick: c, cc, cr; thorough adds crr, "
             "ccr, crc), same day and with the day advancing between steps. Every transition runs "
             "the real CLI in a fresh process; state = files + raw index + meta stores. Invariants "
             "(i)-(iv) of the design in every state."
